@@ -15,6 +15,10 @@ CHECKS = {
    technique="exhaustive enumeration of call histories on one real Translator over an input alphabet (depth-bounded), plus N-document streams and document boundaries at every offset around buffer sizes under deviation-bounded read schedules; sequential-composition reference + independent framing readers",
    text="Every history of translate calls (mixed formats, slice/reader, named/detected, including failing inputs) up to the depth bound on one Translator, for each streaming target, outputs exactly the concatenation of each document's stand-alone translation, and the target's independent reader recovers exactly N documents; the same for N-document streams (N to 1000) and for streams whose document boundary sits at every offset around 8 KiB multiples, from slice and from readers within the schedule bound; the CLI part runs mixed-format file lists through the real binary.",
    note="Reference = xt's own single-document translation (sequential composition), so absolute value fidelity is left to C01. Trusted: harness readers for framing."),
+ "C05": dict(cat="model_checking", design="4.5",
+   technique="enumeration of packetisations and deviation-bounded read schedules with a monitor evaluated at every read() of the real library (lag), plus long generated streams under a counting allocator whose abstract heap states must recur (memory)",
+   text="For every enumerated stream shape, source (named and detected), target and packetisation (and every schedule within the deviation bound for small streams) the lag monitor holds at every read(): documents 1..j-2 are fully written once j documents were delivered. For generated streams of tens of thousands of documents the live heap does not grow between the second and third quarter, stays under 2 MiB + 24 largest documents, and its abstract states recur.",
+   note="Memory = live heap of the translating thread as seen by a counting GlobalAlloc; fragmentation and RSS are not modelled. The claim for longer streams rests on determinism plus the reported recurrence."),
  "C06": dict(cat="exploration", design="4.6",
    technique="bounded-exhaustive enumeration of documents x ordered format pairs, metamorphic two-hop oracle on the real library (idempotence and round trip), both supply modes at each hop",
    text="For every enumerated document (C01 corpus, boundary-sized collections, buffer-straddling strings, extensions) and every ordered pair (A,B): whenever xt(A->B)(x) succeeds, xt(B->B) reproduces it byte for byte from slice and reader, and for common-model documents xt(B->A) of it equals xt(A->A)(x) (TOML: of the reordered value).",
